@@ -11,6 +11,7 @@ import (
 	"sort"
 	"strings"
 	"testing"
+	"time"
 
 	"github.com/cosmos/iavl"
 	dbm "github.com/cosmos/iavl/db"
@@ -571,6 +572,10 @@ type BigImportFault struct {
 	Skip   bool   `json:"skip_fast"`
 }
 
+var errImportHang = errors.New("import did not return")
+
+const bigImportWatchdog = 2 * time.Minute
+
 func runBigImportFault(c BigImportFault) (v *Violation, positions int) {
 	defer func() {
 		if r := recover(); r != nil {
@@ -596,9 +601,34 @@ func runBigImportFault(c BigImportFault) (v *Violation, positions int) {
 			tdb.FailKindNth = map[string]int{"BatchWrite": nth}
 		}
 		tr := iavl.NewMutableTree(tdb, 0, c.Skip, iavl.NewNopLogger())
-		err := ImportAll(tr, 1, nodes, false)
-		tdb.FailKindNth = nil
-		return err, tdb
+		// the import runs under a watchdog: a failed background write must come back as an error from
+		// Add/Commit and Close must return; an importer that blocks for ever never surfaces the fault.
+		// (a fault-free import of this size takes well under a second; the limit is two minutes.)
+		type res struct {
+			err error
+			pan any
+		}
+		done := make(chan res, 1)
+		go func() {
+			var r res
+			defer func() {
+				if p := recover(); p != nil {
+					r.pan = p
+				}
+				done <- r
+			}()
+			r.err = ImportAll(tr, 1, nodes, false)
+		}()
+		select {
+		case r := <-done:
+			tdb.FailKindNth = nil
+			if r.pan != nil {
+				panic(r.pan)
+			}
+			return r.err, tdb
+		case <-time.After(bigImportWatchdog):
+			return errImportHang, tdb
+		}
 	}
 	err0, t0 := attempt(0)
 	if err0 != nil {
@@ -608,6 +638,9 @@ func runBigImportFault(c BigImportFault) (v *Violation, positions int) {
 	for k := 1; k <= nw; k++ {
 		positions++
 		err, tdb := attempt(k)
+		if err == errImportHang {
+			return &Violation{Prop: "C17", Obs: "bigimport.hang", Msg: fmt.Sprintf("import of %d nodes with batch write #%d of %d failing: Add/Commit/Close did not return within %s", len(nodes), k, nw, bigImportWatchdog)}, positions
+		}
 		if len(tdb.FailLog) == 0 {
 			continue
 		}
